@@ -844,7 +844,7 @@ VARIANTS = [
       "        if self._count < 2:\n            if self._pass_on_empty:\n                return\n            raise LenaZeroDivisionError(\n                \"can't calculate average. No values were filled\"", ["C09-i"]),
     M("histogram-template-not-copied", "lena/structures/histogram.py", "        self._initial_bins = copy.deepcopy(bins)", "        self._initial_bins = bins", ["C09-g"]),
     M("vmc-shared-default-sums", "lena/math/elements.py", "    def __init__(self, sum_sq=None, sum_=None, corrected=True,", "    def __init__(self, sum_sq=Sum(), sum_=Sum(), corrected=True,", ["C09-h"]),
-    M("storefilled-shared-list", "lena/flow/elements.py", "class StoreFilled(object):", "class StoreFilled(object):\n    def _unused(self, acc=[]):\n        return acc\n", ["C09-h"]),
+    M("storefilled-shared-list", "lena/flow/elements.py", "class StoreFilled(object):", "class StoreFilled(object):\n    def unused(self, acc=[]):\n        return acc\n", ["C09-h"]),
     M("revert-fix-graph-scale", "lena/structures/graph.py", "        # the scale could be set from context during fill\n        self._scale = self._init_context[\"scale\"]\n", "", ["C09-a"]),
     V("mutant", "revert-fix-histogram-reset", None, None, None, ["C09-a", "C09-c"], edits=[
         ("lena/structures/histogram.py", "        self._hist = histogram(self._hist.edges, bins, self._initial_value)\n", "        self.bins = bins\n", 0)]),
